@@ -26,7 +26,8 @@ PROP = "C03"
 LEVEL = "proof"
 THEOREMS = ["C03_solutions_eq", "C03_treeAt_eq_get", "C03_index_in_range", "C03_index_oob",
             "C03_repeat_access", "C03_trees_pairwise_distinct", "C03_index_injective",
-            "C03_first_tree_is_index_zero"]
+            "C03_first_tree_is_index_zero",
+            "C03_parse_trees_pairwise_distinct", "C03_index_gives_distinct_parse_trees"]
 META = {
     "rule": "cases = (grammar, table kind, input) whose GLR parse returns a forest; the forest is dumped "
             "(Parent objects numbered topologically) and the Lean forest model computes len, ambiguities, "
@@ -117,6 +118,8 @@ def check_forest(res, case, num, forest, rng, idx_cap):
                                   "observed": "LoopError", "expected": "count"})
         return b, exp, d, None
     exp.append((b.add("fwf"), "fwf 1", None))
+    # hypothesis of C03_parse_trees_pairwise_distinct, evaluated on this forest (expectation filled in below)
+    qkeyed = b.add("fkeyed", [num.nt(pr.symbol) for pr in num.grammar.productions])
     exp.append((b.add("loop", d.root), "loop 0", None))
     exp.append((b.add("sols", d.root), "sols %d" % n, None))
     exp.append((b.add("amb", d.root), "amb %d" % forest.ambiguities, None))
@@ -188,7 +191,8 @@ def check_forest(res, case, num, forest, rng, idx_cap):
                                   "observed": impl_amb, "expected": want_amb})
     if dup_trees and not dups["nodes"]:
         res["violations"].append({"kind": "duplicate-tree", "case": case, "observed": dup_trees[0]})
-    # ambiguities = nodes with more than one *distinct* alternative
+    # the forest is keyed like an SPPF exactly when no node lists an alternative twice
+    exp.append((qkeyed, "fkeyed 0" if dups["nodes"] else "fkeyed 1", None))
     return b, exp, d, dups
 
 
@@ -252,6 +256,8 @@ def run_unit(u):
                     else:
                         res["disagreements"].append({"case": case, "query": b.lines[q][:80],
                                                      "model": out[q][:300], "impl": want[:300]})
+                if want == "fkeyed 1" and out[q] == want:
+                    res["stats"]["keyed_forests"] = res["stats"].get("keyed_forests", 0) + 1
                 if want.startswith("sols "):
                     ntrees = int(want[5:])
             if d.cyclic or (ntrees or 0) >= 2:
